@@ -459,6 +459,32 @@ func runC03(c *Ctx) {
 			c.Direct(out == "-", "panic on a well-sealed request with an unusual inner plaintext", map[string]any{"inner": hx(pt), "request": hx(req), "panic": firstLines(lastPanic, 10)})
 		}
 	}
+	// type-5 requests carrying element counts on both sides of the length prefix's size classes (the decoder accepts any count)
+	{
+		honest := w.resp["req5"]
+		// type(2) key id(1) varint length, then 32-byte elements
+		_, off := quicwire.ConsumeVarint(honest[3:])
+		el := honest[3+off : 3+off+32]
+		for _, n := range []int{0, 1, 2, 3, 63, 64, 511, 512, 513, 1024} {
+			if !c.Thorough() && n > 513 {
+				continue
+			}
+			req := append([]byte{}, honest[:3]...)
+			req = quicwire.AppendVarint(req, uint64(32*n))
+			for k := 0; k < n; k++ {
+				req = append(req, el...)
+			}
+			out := c.Op(fmt.Sprintf("c03.probe type5.Request.Unmarshal+Evaluate(%d-elements) %s", n, hx(req[:8])), func() string {
+				q := &type5.BatchedPrivateTokenRequest{}
+				if q.Unmarshal(req) {
+					w.i5.Evaluate(q)
+				}
+				return "-"
+			})
+			c.Count("t5-element-count")
+			c.Direct(out == "-", fmt.Sprintf("panic on a type-5 request with %d valid elements", n), map[string]any{"elements": n, "element": hx(el), "panic": firstLines(lastPanic, 10)})
+		}
+	}
 	// correctly sealed type-3 requests whose request key is not a point, or whose signature halves sit on the range boundaries
 	{
 		cl := newT3Client(r)
